@@ -361,6 +361,38 @@ fn dump_fn<'tcx>(cx: &mut Ctx<'tcx>, did: DefId, kind: DefKind) -> J {
         bbs.push(J::obj(bo));
     }
     o.push(("bbs", J::Arr(bbs)));
+    // number of raw-pointer dereferences (places projecting through a `*const T` / `*mut T`)
+    let mut rawderefs: Vec<J> = Vec::new();
+    for (_bb, data) in body.basic_blocks.iter_enumerated() {
+        if data.is_cleanup {
+            continue;
+        }
+        let mut visit_place = |pl: &Place<'tcx>, sp: Span| {
+            let mut pty = mir::PlaceTy::from_ty(body.local_decls[pl.local].ty);
+            for elem in pl.projection.iter() {
+                if matches!(elem, ProjectionElem::Deref) && pty.ty.is_raw_ptr() {
+                    rawderefs.push(J::i(tcx.sess.source_map().lookup_char_pos(sp.lo()).line));
+                }
+                pty = pty.projection_ty(tcx, elem);
+            }
+        };
+        for st in data.statements.iter() {
+            if let StatementKind::Assign(b) = &st.kind {
+                let (pl, rv) = &**b;
+                visit_place(pl, st.source_info.span);
+                match rv {
+                    Rvalue::Use(Operand::Copy(p) | Operand::Move(p), ..) => visit_place(p, st.source_info.span),
+                    Rvalue::Ref(_, _, p) | Rvalue::RawPtr(_, p) | Rvalue::CopyForDeref(p) | Rvalue::Discriminant(p) => {
+                        visit_place(p, st.source_info.span)
+                    }
+                    _ => {}
+                }
+            }
+        }
+    }
+    if !rawderefs.is_empty() {
+        o.push(("rawderefs", J::Arr(rawderefs)));
+    }
     J::obj(o)
 }
 
@@ -676,6 +708,10 @@ fn term_j<'tcx>(
                     }
                     if let Some(tr) = tcx.trait_of_assoc(*did) {
                         ci.push(("tr", J::s(path_of(tcx, tr))));
+                    }
+                    // callee declared `unsafe fn` (or an unsafe intrinsic)
+                    if tcx.fn_sig(*did).skip_binder().safety().is_unsafe() {
+                        ci.push(("us", J::Bool(true)));
                     }
                 }
                 _ => {
